@@ -346,7 +346,7 @@ class FuncVC:
         facts = st.facts if guard is None else st.facts + [guard]
         for i, r in enumerate(c.get("requires", [])):
             g = to_bool(tr0.ev(ast.parse(r, mode="eval").body))
-            self.oblige("call.%s.requires%s" % (site, "" if guard is None else "[%s]" % callee),
+            self.oblige("call.%s.requires%s" % (site, "" if guard is None else ".via_%s" % callee),
                         "call", facts, g, note="precondition %r of %s" % (r, callee))
         # result and modified arrays
         if shared is not None:
@@ -807,7 +807,7 @@ class FuncVC:
                         env = dict(e.env)
                         env[var] = vint(kv)
                         facts = e.facts + [self.spec_bool(case[1], env, entry_env=entry_env)]
-                        sfx = "[%s]" % case[0]
+                        sfx = ".case_%s" % case[0]
                         sp = (case[0], case[2] if len(case) > 2 else None)
                     for i, g in enumerate(goals):
                         self.oblige("loop.%s.preserve%s%s" % (key, lab, sfx), "loop", facts, g,
